@@ -14,7 +14,8 @@ class Unsupported(Exception):
     pass
 
 
-DT = {"int8": np.int8, "uint8": np.uint8, "int16": np.int16, "int32": np.int32, "int64": np.int64}
+DT = {"int8": np.int8, "uint8": np.uint8, "int16": np.int16, "int32": np.int32, "int64": np.int64,
+      "float32": np.float32, "bool": np.bool_}
 QRANGE = {"int8": (-128, 127), "uint8": (0, 255), "int16": (-32768, 32767)}
 
 
@@ -112,6 +113,50 @@ class Ref:
         """inputs: {tensor index: np.ndarray int64}; returns {tensor index: ndarray} for subgraph outputs"""
         val = dict(inputs)
         for op in self.sg["operators"]:
+            self.step(op, val)
+        return {i: val[i] for i in self.sg["outputs"]}
+
+    # operators that never run on the NPU and whose kernels are not what is being verified: a fixed, deterministic
+    # stand-in function of (operator name, operand values in operand order, output type) is used for them in the
+    # source model and in the output model alike - equivalence modulo uninterpreted CPU functions
+    STANDIN = ("L2_NORMALIZATION", "DEQUANTIZE", "FLOOR")
+
+    def is_standin(self, op):
+        k = op["opcode"]
+        if k == "CUSTOM":
+            return op.get("custom_code") != "ethos-u"
+        if k == "QUANTIZE":
+            return self.tens(op["inputs"][0])["type"] not in QRANGE
+        return k in self.STANDIN
+
+    def standin(self, op, val):
+        name = op["opcode"] + ":" + (op.get("custom_code") or "")
+        h = sum((j + 1) * ord(ch) for j, ch in enumerate(name))
+        for j, out in enumerate(op["outputs"]):
+            t = self.tens(out)
+            n = 1
+            for d in t["shape"]:
+                n *= d
+            acc = np.full(n, h + 7 * j, dtype=np.int64)
+            for pos, i in enumerate(op["inputs"]):
+                if i < 0:
+                    continue
+                v = val.get(i)
+                if v is None:
+                    v = self.const(i)
+                if v is None:
+                    raise Unsupported("stand-in operator with an undefined operand")
+                flat = np.asarray(v, dtype=np.int64).reshape(-1)
+                if len(flat):
+                    acc = acc + (2 * pos + 3) * np.resize(flat, n)
+            lo, hi = QRANGE.get(t["type"], (-(1 << 20), 1 << 20))
+            val[out] = (lo + np.mod(acc, hi - lo + 1)).reshape(t["shape"])
+
+    def step(self, op, val):
+        if self.is_standin(op):
+            self.standin(op, val)
+            return
+        if True:
             k = op["opcode"]
             o = op["options"] or {}
             ins, outs = op["inputs"], op["outputs"]
@@ -210,8 +255,12 @@ class Ref:
             elif k in ("LOGISTIC", "TANH", "LEAKY_RELU", "HARD_SWISH"):
                 # table-based on the NPU: the property allows one step, which is only meaningful when nothing computes
                 # on the result afterwards
-                if any(outs[0] in op2["inputs"] for op2 in self.sg["operators"]):
-                    raise Unsupported("%s feeding another operator" % k)
+                # ... or only a ReLU-type clamp with the same quantisation (monotone: the step stays one step)
+                for op2 in self.sg["operators"]:
+                    if outs[0] in op2["inputs"]:
+                        if op2["opcode"] not in ("RELU", "RELU6") or self.quant(op2["outputs"][0]) != self.quant(outs[0]) or \
+                                any(op2["outputs"][0] in op3["inputs"] for op3 in self.sg["operators"]):
+                            raise Unsupported("%s feeding another operator" % k)
                 val[outs[0]] = self.table_op(k, ins[0], outs[0], o, val)
             elif k == "PRELU":
                 val[outs[0]] = self.prelu(ins, outs[0], val)
@@ -225,7 +274,6 @@ class Ref:
                 val[outs[0]] = np.clip(val[ins[0]], lo, hi)
             else:
                 raise Unsupported(k)
-        return {i: val[i] for i in self.sg["outputs"]}
 
     def prelu(self, ins, out_idx, val):
         """reference_ops::BroadcastPrelu4DSlow (8-bit; the 16-bit kernel of reference_integer_ops has the same arithmetic)"""
